@@ -3,6 +3,7 @@ use crate::db::TYPE_NAMES;
 use crate::eval::float_lit_to_real;
 use std::collections::{BTreeMap, HashSet};
 use syn::visit_mut::{self, VisitMut};
+use quote::ToTokens;
 use syn::{parse_quote, BinOp, Expr, Type, UnOp};
 
 pub struct Rw {
@@ -143,6 +144,15 @@ impl VisitMut for Rw {
             }
         }
         if self.display_unit {
+            if let Type::Reference(r) = t {
+                if let Type::Path(p) = &*r.elem {
+                    if p.path.is_ident("str") {
+                        // R6: text is identified by the id of its bytes
+                        *t = parse_quote!(u64);
+                        return;
+                    }
+                }
+            }
             if let Type::Path(p) = t {
                 let last = p.path.segments.last().map(|s| s.ident.to_string()).unwrap_or_default();
                 if last == "Formatter" {
@@ -234,6 +244,32 @@ impl VisitMut for Rw {
             }
         }
         if self.display_unit {
+            // R11: `m.iter().map(T::to_string).collect()` -> `m.to_strings()` (all entries in storage order, each rendered by Display)
+            if let Expr::MethodCall(c) = e {
+                if c.method == "collect" && c.args.is_empty() {
+                    if let Expr::MethodCall(mp) = &*c.receiver {
+                        let is_to_string = mp.args.len() == 1 && matches!(&mp.args[0], Expr::Path(p) if p.path.segments.last().map(|s| s.ident == "to_string").unwrap_or(false));
+                        if mp.method == "map" && is_to_string {
+                            if let Expr::MethodCall(it) = &*mp.receiver {
+                                if it.method == "iter" && it.args.is_empty() {
+                                    let recv = (*it.receiver).clone();
+                                    *e = parse_quote!(#recv.to_strings());
+                                    self.bump("R11_iter_map_to_string_collect");
+                                    return;
+                                }
+                            }
+                        }
+                    }
+                }
+            }
+            // R11: linear index read `m[k]` -> `*m.lin_ref(k)`
+            if let Expr::Index(ix) = e {
+                let base = (*ix.expr).clone();
+                let k = (*ix.index).clone();
+                *e = parse_quote!((*#base.lin_ref(#k)));
+                self.bump("R11_linear_index_read");
+                return;
+            }
             // R6
             if let Expr::Try(t) = e {
                 let inner = (*t.expr).clone();
@@ -476,6 +512,19 @@ impl VisitMut for Rw {
             }
             _ => {}
         }
+    }
+
+    fn visit_local_mut(&mut self, l: &mut syn::Local) {
+        if self.display_unit {
+            if let syn::Pat::Type(pt) = &l.pat {
+                if pt.ty.to_token_stream().to_string().replace(' ', "") == "Vec<_>" {
+                    // R11: the collected strings are the model type Strs
+                    l.pat = (*pt.pat).clone();
+                    self.bump("R11_drop_vec_annotation");
+                }
+            }
+        }
+        visit_mut::visit_local_mut(self, l);
     }
 
     fn visit_expr_path_mut(&mut self, p: &mut syn::ExprPath) {
